@@ -57,6 +57,12 @@ def _z(x) -> bool:
     return sp.simplify(e) == 0
 
 
+def _layer_free(tot, cnt):
+    """m with tot == m * cnt and m free of cnt; None otherwise"""
+    m = sp.expand(sp.cancel(tot / cnt))
+    return m if (cnt not in m.free_symbols and _z(m * cnt - tot)) else None
+
+
 def n_of(G: str, K: str) -> sp.Symbol:
     """number of entities of kind K (N nodes, F faces, C cells) of grid G"""
     return S(f"n{K}_{G}")
@@ -123,6 +129,8 @@ def fmt_space(s) -> str:
     if not isinstance(s, tuple) or not s:
         return str(s)
     k = s[0]
+    if not isinstance(k, str):
+        return "(" + ",".join(fmt_space(x) if isinstance(x, tuple) else str(x) for x in s) + ")"
     if k == "E":
         return {"C": "cells", "F": "faces", "N": "nodes"}.get(s[2], s[2]) + f"({s[1]})"
     if k == "pos":
@@ -947,7 +955,7 @@ class KI:
                     self.check_index(e, b, ax, v)
                 common = ivs[0].axes if all(self.compat(v.axes[0], ivs[0].axes[0]) is not False for v in ivs) else None
                 named = [v.axes for v in ivs if isinstance(v.axes[0], tuple) and v.axes[0][0] == "E"]
-                return Arr(b.vk, named[0] if named else common, None)
+                return Arr(b.vk, named[0] if named else common, ("paired", b.ident, tuple(self.ident_of(v, x) for v, x in zip(ivs, parts))))
         # a single index applies to the first axis (numpy); remaining axes are kept
         for pos, x in enumerate(parts):
             ax = b.axes[pos]
@@ -1016,6 +1024,19 @@ class KI:
             return self.product(e, l, r)
         if isinstance(op, (ast.BitAnd, ast.BitOr)) and isinstance(l, Mask) and isinstance(r, Mask):
             return Mask(l.axes if l.axes == r.axes else None, u(e))
+        if isinstance(l, Arr) and isinstance(r, Int) and isinstance(op, (ast.FloorDiv, ast.Mod)) and "idmap" in l.flags \
+                and l.axes is not None and len(l.axes) == 1 and isinstance(l.axes[0], tuple) and l.axes[0][0] == "pos":
+            # arange(m*n) // m  enumerates (i slow, copy fast) with value i;  arange(m*n) % n  enumerates (copy slow, i fast)
+            tot = l.axes[0][1]
+            for G in self._grids_known():
+                for K in "CFN":
+                    cnt = n_of(G, K)
+                    if isinstance(op, ast.FloorDiv) and _z(tot - r.p * cnt):
+                        sp_ = self.sp_of(G, K)
+                        return Arr(sp_, (flat_prod([sp_, ("pos", r.p)]),), None, frozenset({"idmap"}))
+                    if isinstance(op, ast.Mod) and _z(r.p - cnt) and _layer_free(tot, cnt) is not None:
+                        sp_ = self.sp_of(G, K)
+                        return Arr(sp_, (flat_prod([("pos", _layer_free(tot, cnt)), sp_]),), None, frozenset({"idmap"}))
         for a, b, swapped in ((l, r, False), (r, l, True)):
             if isinstance(a, Arr) and isinstance(b, Int):
                 if isinstance(op, (ast.Add, ast.Sub)) and a.vk is not None and a.vk != BOT and not (swapped and isinstance(op, ast.Sub)):
@@ -1454,6 +1475,13 @@ class KI:
             return Arr(v.axes[0], (("seq", ("argsort", self.ident_of(v, c.args[0]))),), ("argsort", self.ident_of(v, c.args[0])))
         return None
 
+    def f_lexsort(self, c, argv):
+        keys = argv[0] if argv else None
+        if isinstance(keys, Tup) and keys.items and all(isinstance(k, Arr) and k.axes is not None and len(k.axes) == 1 for k in keys.items):
+            idn = ("lexsort", tuple(self.ident_of(k, c) for k in keys.items))
+            return Arr(keys.items[-1].axes[0], (("seq", idn),), idn)
+        return None
+
     # ---- stacking
     def _seq_items(self, c, argv) -> Optional[list]:
         if not argv:
@@ -1550,6 +1578,8 @@ class KI:
         return self._stack0(it) if it is not None else None
 
     def f_tile(self, c, argv):
+        if len(argv) == 1 and kwarg(c, "reps") is not None:
+            argv = [argv[0], self.ev(kwarg(c, "reps"))]
         if len(argv) != 2 or not isinstance(argv[0], Arr) or argv[0].axes is None or len(argv[0].axes) != 1:
             return None
         a, reps = argv
@@ -1560,6 +1590,8 @@ class KI:
         return None
 
     def f_repeat(self, c, argv):
+        if len(argv) == 1 and kwarg(c, "repeats") is not None:
+            argv = [argv[0], self.ev(kwarg(c, "repeats"))]
         if len(argv) != 2 or not isinstance(argv[0], Arr) or argv[0].axes is None or len(argv[0].axes) != 1 or kwarg(c, "axis") is not None:
             return None
         a, reps = argv
@@ -2926,7 +2958,13 @@ def _m(name, old, new, rule, control=False, count=1):
 
 
 MUTANTS = [
-    dict(name="parent-cell-ind-keeps-request-order", rule="R1", control=True, file=PART, edits=[
+    # reverted forms of the applied fixes
+    _m("revert-fix-2c57e785d-connectivity-tuple-as-truth", "            if not grid_is_connected(g, p_ind)[0]:", "            if not grid_is_connected(g, p_ind):", "R6", control=True),
+    _m("revert-fix-9809e7416-coarse-index-range", "            incr_ind = incr_ind[: coarse_dims[i]]\n", "            incr_ind = incr_ind[:-1]\n", "R4", control=True),
+    _m("revert-fix-a1fffc32a-no-1d-arm", "    if nd == 1:\n        glob_dims = ind[0]\n    elif nd == 2:", "    if nd == 2:", "R4"),
+    _m("revert-fix-8ac7b4b92-overlap-squeeze", "    return np.sort(np.argwhere(active_cells > 0).ravel())", "    return np.sort(np.squeeze(np.argwhere(active_cells > 0)))", "R7"),
+    _m("structured-1d-arm-wrong-direction", "    if nd == 1:\n        glob_dims = ind[0]\n", "    if nd == 1:\n        glob_dims = ind[0] * coarse_dims[0]\n", "R4"),
+    dict(name="parent-cell-ind-keeps-request-order", rule="R1", file=PART, edits=[
         dict(file=PART, old="    if sort:\n        c = np.sort(np.atleast_1d(c))\n", new="    c_req = c\n    if sort:\n        c = np.sort(np.atleast_1d(c))\n"),
         dict(file=PART, old="    h.parent_cell_ind = c\n", new="    h.parent_cell_ind = c_req\n")]),
     dict(name="cell-volumes-in-request-order", rule="R1", file=PART, edits=[
@@ -2946,7 +2984,7 @@ MUTANTS = [
        "    h.cell_volumes = g.face_areas[np.sort(f)]\n    h.cell_centers = g.face_centers[:, f]\n\n    h.parent_face_ind = f  # type: ignore\n    return h, f, unique_nodes\n\n\ndef partition_grid", "R3"),
     _m("faces2d-centres-from-normals", "    h.cell_centers = g.face_centers[:, f]\n\n    h.parent_face_ind = f  # type: ignore\n    return h, f, unique_nodes\n\n\ndef _extract_cells_from_faces_3d",
        "    h.cell_centers = g.face_normals[:, f]\n\n    h.parent_face_ind = f  # type: ignore\n    return h, f, unique_nodes\n\n\ndef _extract_cells_from_faces_3d", "R3"),
-    _m("structured-stride-of-y", "glob_dims = (xi + yi * coarse_dims[0]).ravel(\"C\")", "glob_dims = (xi + yi * coarse_dims[1]).ravel(\"C\")", "R4", control=True),
+    _m("structured-stride-of-y", "glob_dims = (xi + yi * coarse_dims[0]).ravel(\"C\")", "glob_dims = (xi + yi * coarse_dims[1]).ravel(\"C\")", "R4"),
     _m("structured-2d-fortran-ravel", "glob_dims = (xi + yi * coarse_dims[0]).ravel(\"C\")", "glob_dims = (xi + yi * coarse_dims[0]).ravel(\"F\")", "R4"),
     _m("structured-stride-of-z", "zi * np.prod(coarse_dims[:2])", "zi * np.prod(coarse_dims[1:])", "R4"),
     _m("structured-3d-axes", "np.swapaxes(np.swapaxes(glob_dims, 1, 2), 0, 1).ravel(\"C\")", "np.swapaxes(glob_dims, 0, 2).ravel(\"C\")", "R4"),
